@@ -47,6 +47,8 @@ let () = Modes.register "page" (fun records mismatches ->
   let wdump : (string, Page.page) Hashtbl.t = Hashtbl.create 64 in
   let visited : (string, string list) Hashtbl.t = Hashtbl.create 64 in
   let walks = ref 0 in
+  let last_dt : coq_N list ref = ref [] in
+  let directs = ref 0 in
   let cur_op = ref (-1) in
   let checked = ref 0 and unchecked = ref 0 and invs = ref 0 in
   let mism fmt = Printf.ksprintf (fun s -> incr mismatches; if !mismatches <= 30 then print_endline ("MISMATCH " ^ s)) fmt in
@@ -56,6 +58,15 @@ let () = Modes.register "page" (fun records mismatches ->
       let toks = split_ws line in
       match toks with
       | "X" :: _ -> Hashtbl.reset cache; Hashtbl.reset before
+      | "DT" :: _ :: _ :: entries -> last_dt := L.map n_of_string entries
+      | "QF" :: op :: h :: firsts ->
+        (* direct table law: entry w is the first page of queue mi_bin(8*w) (0 = the empty page) *)
+        let tbl = L.map (fun s -> match String.split_on_char ':' s with
+                                  | [b; p] -> (int_of_string b, n_of_string p) | _ -> (-1, N0)) firsts in
+        let qf (b : coq_N) : coq_N = (try L.assoc (int_of_n b) tbl with Not_found -> N0) in
+        incr directs;
+        if not (Direct.direct_ok_b !last_dt qf) then
+          mism "op %s heap %s: pages_free_direct violates the direct table law (Direct.direct_ok_b)" op h
       | "VB" :: _ :: pg :: idx :: [] ->
         let cur = try Hashtbl.find visited pg with Not_found -> [] in
         Hashtbl.replace visited pg (idx :: cur)
@@ -135,4 +146,4 @@ let () = Modes.register "page" (fun records mismatches ->
     done
   with End_of_file -> ());
   Printf.printf "STATS page invariants=%d transitions_checked=%d transitions_unchecked=%d\n" !invs !checked !unchecked;
-  Printf.printf "STATS walk pages=%d\n" !walks)
+  Printf.printf "STATS walk pages=%d direct_tables=%d\n" !walks !directs)
